@@ -966,17 +966,13 @@ Definition aeq {A} (f g : amap A) : Prop := forall k, f k = g k.
 (* new contents of (objects, tags) after a method without predicate *)
 Definition spec_sop (o : sop) (arg : ptr) (O : amap ptr) (T : amap (list Z)) : amap ptr * amap (list Z) :=
   match o with
-  | Add n _ => match O n with Some _ => (O, T) | None => (aupd O n (Some arg), T) end
-  | AddT n _ ty =>
-    match O n with
-    | Some _ => (O, T)
-    | None => (aupd O n (Some arg), match T n with Some _ => T | None => aupd T n (Some [ty]) end)
-    end
+  | Add n _ => match O n with Some _ => (O, T) | None => (aupd O n (Some arg), aupd T n None) end
+  | AddT n _ ty => match O n with Some _ => (O, T) | None => (aupd O n (Some arg), aupd T n (Some [ty])) end
   | AddType n ty => (O, aupd T n (Some (match T n with Some ts => ts ++ [ty] | None => [ty] end)))
   | RemName n => match O n with Some _ => (aupd O n None, aupd T n None) | None => (O, T) end
   | Copy a b =>
     match O a, O b with
-    | Some p, None => (aupd O b (Some p), match T a, T b with Some ts, None => aupd T b (Some ts) | _, _ => T end)
+    | Some p, None => (aupd O b (Some p), aupd T b (T a))
     | _, _ => (O, T)
     end
   | _ => (O, T)
@@ -1024,17 +1020,15 @@ Proof.
   assert (abs_eq : forall A (m : list (Z * A)) k, abs m k = lookup k m) by reflexivity.
   destruct o; rewrite ?abs_eq.
   - destruct (lookup n om) eqn:E; inversion H; subst; cbn [fst snd is_some negb b2z];
-      repeat split; auto using aeq_refl, abs_ins.
+      repeat split; auto using aeq_refl, abs_ins, abs_del.
   - destruct (lookup n om) eqn:E; inversion H; subst; cbn [fst snd is_some negb b2z];
-      repeat split; auto using aeq_refl, abs_ins.
-    destruct (lookup n tm) eqn:E2; [eapply abs_ins_keep; eauto|apply abs_ins; auto].
+      repeat split; auto using aeq_refl, abs_ins, abs_put.
   - inversion H; subst. cbn [fst snd]. repeat split; auto using aeq_refl. apply abs_put; auto.
   - destruct (lookup n om) eqn:E; inversion H; subst; cbn [fst snd is_some b2z];
       repeat split; auto using aeq_refl, abs_del.
   - destruct (lookup a om) eqn:E; [destruct (lookup b om) eqn:E2|]; inversion H; subst;
       cbn [fst snd is_some negb andb b2z]; repeat split; auto using aeq_refl, abs_ins.
-    destruct (lookup a tm) eqn:E3; [|apply aeq_refl].
-    destruct (lookup b tm) eqn:E4; [eapply abs_ins_keep; eauto|apply abs_ins; auto].
+    destruct (lookup a tm) eqn:E3; [apply abs_put; auto|apply abs_del; auto].
   - destruct (lookup n om) eqn:E; inversion H; subst; cbn [fst snd]; repeat split; auto using aeq_refl.
   - inversion H; subst. cbn [fst snd]. repeat split; auto using aeq_refl.
   - inversion H; subst. cbn [fst snd]. repeat split; auto using aeq_refl.
@@ -1046,6 +1040,45 @@ Proof.
     + left. split; [reflexivity|]. intros k. reflexivity.
     + right. split; [reflexivity|]. exists k, p. rewrite abs_eq. unfold lookup. rewrite Z.eqb_refl. reflexivity.
 Qed.
+
+(* a successful copyObject(a, b): b names the same object as a, and their tag lists are equal
+   (both absent, or both present and equal) *)
+Lemma copy_aliases_tags a b arg om tm om' tm' tch : sorted om -> sorted tm ->
+  apply_sop (Copy a b) arg om tm = (om', tm', 1, tch) ->
+  (exists p, lookup a om = Some p /\ lookup a om' = Some p /\ lookup b om' = Some p) /\
+  lookup b tm' = lookup a tm' /\ lookup a tm' = lookup a tm.
+Proof.
+  intros Ho Ht H. unfold apply_sop in H.
+  destruct (lookup a om) as [p|] eqn:E; [destruct (lookup b om) eqn:E2|]; inversion H; subst; clear H.
+  assert (a <> b) as Hne by (intros ->; congruence).
+  split.
+  - exists p. rewrite !(lookup_ins _ _ _ _ Ho), E2, E, Z.eqb_refl.
+    destruct (Z.eqb_spec a b); [contradiction|]. auto.
+  - destruct (lookup a tm) as [ts|] eqn:E3.
+    + rewrite !(lookup_put _ _ _ _ Ht), Z.eqb_refl. destruct (Z.eqb_spec a b); [contradiction|]. auto.
+    + rewrite !(lookup_del _ _ _ Ht), Z.eqb_refl. destruct (Z.eqb_spec a b); [contradiction|]. auto.
+Qed.
+(* a successful addObject(n, obj[, type]): n names obj and its tags are exactly [type] (or absent) *)
+Lemma add_tags_exact o arg om tm om' tm' tch : sorted om -> sorted tm ->
+  apply_sop o arg om tm = (om', tm', 1, tch) ->
+  match o with
+  | Add n _ => lookup n om' = Some arg /\ lookup n tm' = None
+  | AddT n _ ty => lookup n om' = Some arg /\ lookup n tm' = Some [ty]
+  | _ => True
+  end.
+Proof.
+  intros Ho Ht H. unfold apply_sop in H. destruct o; auto.
+  - destruct (lookup n om) eqn:E; inversion H; subst.
+    rewrite (lookup_ins _ _ _ _ Ho), (lookup_del _ _ _ Ht), E, Z.eqb_refl. auto.
+  - destruct (lookup n om) eqn:E; inversion H; subst.
+    rewrite (lookup_ins _ _ _ _ Ho), (lookup_put _ _ _ _ Ht), E, Z.eqb_refl. auto.
+Qed.
+(* before repair c9feeb7: addType on an absent name, then add and copy under that name *)
+Definition orphan_seq : list (sop * ptr) := [(AddType 1 7, null_ptr); (AddT 0 3 1, (1%nat, 3)); (Copy 0 1, null_ptr)].
+Lemma orphan_leak :
+  let '(om, tm) := seq_run true orphan_seq [] [] in
+  lookup 1 om = lookup 0 om /\ lookup 0 om <> None /\ lookup 1 tm <> lookup 0 tm.
+Proof. vm_compute. repeat split; discriminate. Qed.
 
 (* methods with a predicate: the first entry in key order that satisfies the test *)
 Definition pscan_post (o : pop) (om : omapT) (tm : tmapT) (s' : mstate) (r : option Z) : Prop :=
